@@ -464,6 +464,9 @@ S4_MORE["C15"] += (" The twelve settings constructors on their executed bodies, 
 S4_MORE["C20"] += (" plot_azimuthal_contour_3d: one surface over the mesh helper's grids (frequency in log10), one scatter of the per-azimuth peaks for the same distribution closed at 180 "
                   "degrees by the first azimuth's peak. plot_azimuthal_summary (all parts on): the 3-D surface, the 2-D contour and the single panel each on its own axes for the caller's "
                   "object and distribution_mc, the fn band for distribution_fn, every switched-on part forwarded, the mean-curve peak once more for distribution_mc.")
+S4_MORE["C20"] += (" plot_voronoi: one filled polygon per tessellation cell in order - its own outline, the colour of the sensor value with the same index on a scale from the smallest to "
+                  "the largest value -, the sensors at their coordinates, the boundary closed by its first point.")
+S4_MORE["C03"] += " HvsrTraditional.from_hvsr_curves: row i of the table handed to the constructor is entry i's curve, frequencies of the first entry, an entry not similar to the first refused."
 for _k, _v in S4_MORE.items():
     S4[_k] = ((S4[_k][0] + " " + _v,) + tuple(S4[_k][1:])) if _k in S4 else (_v, None, None)
 for _pid, (_t, _n, _tech) in S4.items():
